@@ -14,17 +14,19 @@ Fixpoint clk_get (c : clocks) (k : Z) : Z :=
   match c with [] => 0 | (k', v) :: r => if k =? k' then v else clk_get r k end.
 
 (** does the operation follow the discipline (for every traveller it touches)?  second component: the clocks after it *)
+Definition key_okb (k : Z) : bool := (0 <=? k) && (k <? 2 ^ 160).
+
 Definition op_conformsb (c : clocks) (e : engine NumF) (o : eop) : bool * clocks :=
   let a := e_admin e in
   let p := a_params a in
   match o with
   | ESubmit k [f] now debit _ =>
-      (conformsb (clk_get c k) (get_create e k now) (ECheckin (flight_of f) now (a_pc a) p debit), (k, now) :: c)
+      (key_okb k && conformsb (clk_get c k) (get_create e k now) (ECheckin (flight_of f) now (a_pc a) p debit), (k, now) :: c)
   | ESubmit k _ now _ _ => (false, (k, now) :: c)            (* the bot checks in one flight at a time *)
   | RunEngine.EPropose k fs te now _ _ _ =>
       match plan_args e (map flight_of fs) te now with
       | inl (ts, te', d, tr) =>
-          (conformsb (clk_get c k) (get_create e k now) (EPlan ts te' d tr now (as_predictor (a_pred a))), (k, now) :: c)
+          (key_okb k && conformsb (clk_get c k) (get_create e k now) (EPlan ts te' d tr now (as_predictor (a_pred a))), (k, now) :: c)
       | inr _ => (true, c)
       end
   | RunEngine.EUpdate now _ _ _ _ =>
